@@ -195,6 +195,22 @@ def gen_cases(chk):
                     cases.append(Case(B.lddw(1, a) + B.alu(name, 1, imm=imm, w=w) + B.movr(0, 1) + B.EXIT, fam='alu-boundary'))
     # directed: the arithmetic that used to overflow
     cases.append(Case(B.lddw(1, 2 ** 63) + B.alu('neg', 1) + B.movr(0, 1) + B.EXIT, fam='neg64-min'))
+    # every memory instruction with a base register at the edges of the signed / unsigned 64-bit range and displacements that
+    # cross them: the address computation must wrap (and the access be refused), never overflow
+    edges = [2 ** 63 - 1, 2 ** 63 - 8, 2 ** 63 - 32768, 2 ** 63, 2 ** 63 + 7, 2 ** 63 + 32767, 2 ** 64 - 1, 2 ** 64 - 8, 0, 7]
+    for sz in ('b', 'h', 'w', 'dw'):
+        for base in edges:
+            for off in (1, 8, 32767, -1, -8, -32768):
+                if not thorough and (edges.index(base) + off + len(sz)) % 2:
+                    continue
+                cases.append(Case(B.lddw(1, base) + B.ldx(sz, 0, 1, off) + B.EXIT, mem=pk, fam='addr-edge:ldx'))
+                cases.append(Case(B.lddw(1, base) + B.mov(2, 5) + B.stx(sz, 1, 2, off) + B.mov(0, 0) + B.EXIT, mem=pk, fam='addr-edge:stx'))
+                cases.append(Case(B.lddw(1, base) + B.st(sz, 1, off, 7) + B.mov(0, 0) + B.EXIT, mem=pk, fam='addr-edge:st'))
+                if sz in ('w', 'dw'):
+                    cases.append(Case(B.lddw(1, base) + B.mov(2, 5) + B.xadd(sz, 1, 2, off) + B.mov(0, 0) + B.EXIT, mem=pk, fam='addr-edge:xadd'))
+        for base in edges:
+            for imm in (0, 1, 0x7fffffff, -1, -0x80000000):
+                cases.append(Case(B.lddw(4, base) + B.ldind(sz, 4, imm) + B.EXIT, mem=pk, fam='addr-edge:ldind'))
     cases.append(Case(B.lddw(4, 2 ** 64 - 1) + B.ldind('b', 4, 1) + B.EXIT, mem=pk, fam='ldind-wrap'))
     cases.append(Case(B.lddw(4, 2 ** 64 - 8) + B.ldind('dw', 4, 0x7fffffff) + B.EXIT, mem=pk, fam='ldind-wrap'))
     # backward local calls, deep recursion, return chains
